@@ -19,7 +19,7 @@ def addr(i):
 # policies / listeners handed to the real Cluster
 # ---------------------------------------------------------------------------------------------
 
-def plan_policy(log=None, distances=None):
+def plan_policy(log=None, distances=None, keep_down=False):
     """load-balancing policy: plan = live hosts in `self.order` (addresses; default sorted by
     address); distance from the `distances` map (address -> "local"|"remote"|"ignored", default
     local); every notification is appended to `log` as (kind, address, host object)"""
@@ -54,7 +54,9 @@ def plan_policy(log=None, distances=None):
 
         def on_down(self, host):
             self.log.append(("down", host.endpoint.address, host))
-            if host in self.hosts:
+            # keep_down: down hosts stay in the plan (a policy need not track liveness), so that a control connection
+            # without any live host still has somebody to try -- and spends connect time doing so
+            if host in self.hosts and not keep_down:
                 self.hosts.remove(host)
 
         def on_add(self, host):
